@@ -157,6 +157,9 @@ type Interp struct {
 	concPos    int
 	concChoice int
 	usedStubs  bool
+	preinitNotes []string
+	model      map[string]uint64 // a model of in.pc, or nil
+	modelMemo  map[int]uint64
 	pathNotes  []string
 }
 
@@ -599,7 +602,7 @@ func (in *Interp) invoke(g *Goroutine, fv *FuncV, args []Value, retReg int, onRe
 		in.invoke(g, st, args, retReg, onRet, isDefer)
 		return
 	}
-	if h, ok := intrinsics[name]; ok {
+	if h, ok := intrinsics[name]; ok && !fv.noIntr {
 		all := args
 		if len(fv.bindings) > 0 {
 			all = append(append([]Value{}, fv.bindings...), args...)
@@ -973,7 +976,7 @@ func (in *Interp) doIf(g *Goroutine, fr *Frame, x *ssa.If) {
 		}
 	}
 	if in.verbose {
-		fmt.Fprintf(os.Stderr, "  feasible2 at %s spec=%d\n", in.prog.Fset.Position(x.Pos()), in.specDepth)
+		fmt.Fprintf(os.Stderr, "  feasible2 in %s b%d\n", fr.fn, fr.block.Index)
 	}
 	tf, ff := in.feasible2(c)
 	switch {
@@ -988,11 +991,8 @@ func (in *Interp) doIf(g *Goroutine, fr *Frame, x *ssa.If) {
 	case !tf && !ff:
 		panic(pathEnd{kind: "infeasible"})
 	}
-	if triedMerge {
-		if in.specDepth > 0 {
-			panic(mergeAbort{"nested merge failed"})
-		}
-		in.mergeFail[x]++
+	if triedMerge && in.specDepth > 0 {
+		panic(mergeAbort{"nested merge failed"})
 	}
 	if in.specDepth > 0 {
 		panic(mergeAbort{"fork in arm"})
@@ -1015,9 +1015,16 @@ func (in *Interp) doIf(g *Goroutine, fr *Frame, x *ssa.If) {
 	}
 }
 
+func (in *Interp) evalModel(c *Term) bool {
+	return in.tt.Eval(c, in.model, in.modelMemo) == 1
+}
+
 func (in *Interp) addPC(c *Term) {
 	if c.IsTrue() {
 		return
+	}
+	if in.model != nil && !in.evalModel(c) {
+		in.model = nil
 	}
 	if in.specDepth > 0 {
 		n := len(in.pc)
@@ -1028,29 +1035,59 @@ func (in *Interp) addPC(c *Term) {
 
 // feasible2 reports whether c and !c are satisfiable under the path condition.
 func (in *Interp) feasible2(c *Term) (bool, bool) {
-	r1 := in.sol.Check(append(in.pc[:len(in.pc):len(in.pc)], c))
-	if r1 == Unknown {
-		in.stats.Unknown++
+	if in.model != nil {
+		// the current model of pc witnesses one side for free
+		if in.evalModel(c) {
+			return true, in.checkSide(in.tt.Not(c))
+		}
+		return in.checkSide(c), true
 	}
-	if r1 == Unsat {
+	if !in.checkSide(c) {
 		return false, true // pc itself assumed satisfiable
 	}
-	r2 := in.sol.Check(append(in.pc[:len(in.pc):len(in.pc)], in.tt.Not(c)))
-	if r2 == Unknown {
+	return true, in.checkSide(in.tt.Not(c))
+}
+
+// checkSide decides pc && c; on sat it keeps the model as the witness of the current pc
+// only when c is subsequently added (handled by addPC's evaluation).
+func (in *Interp) checkSide(c *Term) bool {
+	q := append(in.pc[:len(in.pc):len(in.pc)], c)
+	k := cacheKey(q)
+	if r, ok := in.sol.cache[k]; ok {
+		in.sol.CacheHits++
+		return r != Unsat
+	}
+	if in.verbose {
+		var names []string
+		for d := 1; d < 5; d++ {
+			if pc, _, line, ok := runtime.Caller(d); ok {
+				n := runtime.FuncForPC(pc).Name()
+				names = append(names, fmt.Sprintf("%s:%d", n[strings.LastIndex(n, ".")+1:], line))
+			}
+		}
+		fmt.Fprintf(os.Stderr, "  query from %s\n", strings.Join(names, "<"))
+	}
+	r, model := in.sol.CheckModel(q, collectSyms(q))
+	in.sol.cache[k] = r
+	if r == Unknown {
 		in.stats.Unknown++
 	}
-	return true, r2 != Unsat
+	if r == Sat && in.model == nil && in.specDepth == 0 {
+		// model satisfies pc (and c): a valid witness of pc
+		in.model = model
+		in.modelMemo = map[int]uint64{}
+	}
+	return r != Unsat
 }
 
 func (in *Interp) feasible(c *Term) bool {
 	if c.IsConst() {
 		return c.cv == 1
 	}
-	r := in.sol.Check(append(in.pc[:len(in.pc):len(in.pc)], c))
-	if r == Unknown {
-		in.stats.Unknown++
+	if in.model != nil && in.evalModel(c) {
+		return true
 	}
-	return r != Unsat
+	return in.checkSide(c)
 }
 
 // decide picks one of n options; options for which feas(i) is false are skipped.
@@ -1133,6 +1170,7 @@ func (in *Interp) tryMerge(g *Goroutine, fr *Frame, x *ssa.If, c *Term) (ok bool
 	in.specFrame = fr
 	mark := len(in.journal)
 	pcLen := len(in.pc)
+	savedModel, savedMemo := in.model, in.modelMemo
 	var results [2]armResult
 	restore := func() {
 		in.undoTo(mark)
@@ -1142,6 +1180,7 @@ func (in *Interp) tryMerge(g *Goroutine, fr *Frame, x *ssa.If, c *Term) (ok bool
 		fr.pc = savedPC
 		fr.defers = append(fr.defers[:0:0], savedDefers...)
 		in.pc = in.pc[:pcLen]
+		in.model, in.modelMemo = savedModel, savedMemo
 		fr.hasPendRet = false
 		fr.pendRet = nil
 	}
@@ -1155,6 +1194,9 @@ func (in *Interp) tryMerge(g *Goroutine, fr *Frame, x *ssa.If, c *Term) (ok bool
 		if r := recover(); r != nil {
 			switch r.(type) {
 			case mergeAbort, goPanicSig, pathEnd, unsupportedErr:
+				if ma, isMA := r.(mergeAbort); !isMA || ma.why != "nested merge failed" {
+					in.mergeFail[x]++
+				}
 				if in.verbose {
 					fmt.Fprintf(os.Stderr, "  merge abort at %s in %s: %v\n", in.prog.Fset.Position(x.Pos()), fr.fn, r)
 				}
@@ -1172,6 +1214,9 @@ func (in *Interp) tryMerge(g *Goroutine, fr *Frame, x *ssa.If, c *Term) (ok bool
 		cond := c
 		if arm == 1 {
 			cond = in.tt.Not(c)
+		}
+		if in.model != nil && !in.evalModel(cond) {
+			in.model = nil
 		}
 		in.pc = append(in.pc, cond)
 		in.jump(fr, B.Succs[arm])
@@ -1415,6 +1460,10 @@ func (in *Interp) modelInputs(model map[string]uint64) []Input {
 }
 
 func (in *Interp) freshSym(w uint8, src, label string) *Term {
+	return in.freshSymSuffix(w, src, label, "")
+}
+
+func (in *Interp) freshSymSuffix(w uint8, src, label, suffix string) *Term {
 	if in.concreteMode {
 		for in.concPos < len(in.concrete) && in.concrete[in.concPos].Kind != "sym" {
 			in.concPos++
@@ -1430,7 +1479,7 @@ func (in *Interp) freshSym(w uint8, src, label string) *Term {
 		return in.tt.Const(w, v)
 	}
 	in.symSeq++
-	name := fmt.Sprintf("s%d_w%d", in.symSeq, w)
+	name := fmt.Sprintf("s%d_w%d%s", in.symSeq, w, suffix)
 	t := in.tt.Sym(name, w)
 	in.inputs = append(in.inputs, inputRec{kind: "sym", sym: t, src: src, label: label})
 	return t
